@@ -289,6 +289,27 @@ void hv_case(uint64_t index)
       if (d) hv_viol(N > 1 ? "rollback.topology_changed" : "rollback.topology_changed_first", "after a failed apply (entry %u of %u) the topology differs from before the call: %s", N, n, d);
       hv_str_free(&after); if (N > 2) hv_stat("rollback.after_two_or_more_applied", 1); }
     hv_str_free(&before);
+    /* the same in the reverse direction: a copy of B, the entries of the diff with a failing one at position M, APPLY_REVERSE */
+    if (!hv_viol_count() && D) {
+      hwloc_topology_diff_t rl[40]; unsigned rn = 0;
+      for (hwloc_topology_diff_t d = D; d && rn < 30; d = d->generic.next) {
+        if (d->obj_attr.diff.generic.type == HWLOC_TOPOLOGY_DIFF_OBJ_ATTR_SIZE) rl[rn++] = mk_size(d->obj_attr.obj_depth, d->obj_attr.obj_index, d->obj_attr.diff.uint64.oldvalue, d->obj_attr.diff.uint64.newvalue);
+        else rl[rn++] = mk_string(d->obj_attr.obj_depth, d->obj_attr.obj_index, (int)d->obj_attr.diff.string.type, d->obj_attr.diff.string.name, d->obj_attr.diff.string.oldvalue, d->obj_attr.diff.string.newvalue);
+      }
+      unsigned M = 1 + (unsigned)hv_below(&R, rn + 1);
+      hwloc_topology_diff_t rbad = hv_chance(&R, 1, 2) ? mk_size(hwloc_topology_get_depth(A) + 3, 0, 1, 2) : mk_string(0, 0, HWLOC_TOPOLOGY_DIFF_OBJ_ATTR_INFO, "NoSuchInfo", "x", "y");
+      for (unsigned i = rn; i >= M; i--) rl[i] = rl[i - 1];
+      rl[M - 1] = rbad; rn++;
+      for (unsigned i = 0; i < rn; i++) rl[i]->generic.next = i + 1 < rn ? rl[i + 1] : NULL;
+      hwloc_topology_t B3 = NULL; hwloc_topology_dup(&B3, B);
+      struct hv_str b0; hv_str_init(&b0); canon_dump(B3, CANON_EQUIV, &b0);
+      errno = 0; int rr = hwloc_topology_diff_apply(B3, rl[0], HWLOC_TOPOLOGY_DIFF_APPLY_REVERSE);
+      hv_desc("  reverse rollback list: %u entries, failing one at position %u -> %d\n", rn, M, rr);
+      if (rr != -(int)M) hv_viol("rollback.reverse.return_value", "APPLY_REVERSE of a %u-entry list whose entry %u cannot be applied returned %d, expected %d", rn, M, rr, -(int)M);
+      else { struct hv_str b1; hv_str_init(&b1); canon_dump(B3, CANON_EQUIV, &b1); const char *d = canon_diff(&b0, &b1); if (d) hv_viol("rollback.reverse.topology_changed", "after a failed APPLY_REVERSE (entry %u of %u) the topology differs from before the call: %s", M, rn, d); hv_str_free(&b1); if (M > 1) hv_stat("rollback.reverse.after_one_or_more_applied", 1); }
+      hv_str_free(&b0); hwloc_topology_destroy(B3); hwloc_topology_diff_destroy(rl[0]);
+      hv_stat("rollback.reverse.applies", 1);
+    }
     /* unknown flags */
     errno = 0; if (hwloc_topology_diff_apply(A3, NULL, 2UL << hv_below(&R, 5)) != -1 || errno != EINVAL) hv_viol("apply.flags", "unknown apply flags accepted");
     hwloc_topology_destroy(A3);
